@@ -1,5 +1,5 @@
 import GdcVerif.Lemmas.ParsersTotal
-/-! C09: allocation bounds of the JPEG-family header walks (jpeg/lossless, JPEG-LS lossless). -/
+/-! C09: allocation bounds of the JPEG-family header walks (jpeg/lossless, JPEG-LS lossless, lossless14sv1, baseline). -/
 namespace JM
 open PC
 
@@ -429,3 +429,679 @@ theorem header_allocs (bs : Bytes) (hb : IsBytes bs) :
       · exact Or.inr (Or.inl h1)
       · exact Or.inr (Or.inr h1)
 end JlsH
+
+namespace JM
+open PC
+
+/-! ## lossless14sv1 (after FIXME-SOF: a second frame header is rejected) -/
+
+theorem sv1Comps_spec (w h n : Nat) (data : Bytes) (acc : List (Nat × Nat)) (al : List Nat) :
+    (∀ a ∈ (sv1Comps w h n data acc al).2, a ∈ al ∨ a = 8 * (w * h)) ∧
+    (∀ cs, (sv1Comps w h n data acc al).1 = some cs → cs.length = acc.length + n) := by
+  induction n generalizing data acc al with
+  | zero =>
+    constructor
+    · intro a ha; simp [sv1Comps] at ha; exact Or.inl ha
+    · intro cs h; simp [sv1Comps] at h; subst h; rfl
+  | succ n ih =>
+    match data with
+    | id :: hv :: tq :: rest =>
+      unfold sv1Comps
+      simp only
+      split
+      · constructor
+        · intro a ha
+          rcases List.mem_append.mp ha with ha | ha
+          · exact Or.inl ha
+          · exact Or.inr (List.mem_singleton.mp ha)
+        · intro cs h; cases h
+      · have := ih rest (acc ++ [(id, 0)]) (al ++ [8 * (w * h)])
+        constructor
+        · intro a ha
+          rcases this.1 a ha with h1 | h1
+          · rcases List.mem_append.mp h1 with h1 | h1
+            · exact Or.inl h1
+            · exact Or.inr (List.mem_singleton.mp h1)
+          · exact Or.inr h1
+        · intro cs h
+          have := this.2 cs h
+          simp at this; omega
+    | [] => exact ⟨fun a ha => by simp [sv1Comps] at ha; exact Or.inl ha, fun cs h => by simp [sv1Comps] at h⟩
+    | [_] => exact ⟨fun a ha => by simp [sv1Comps] at ha; exact Or.inl ha, fun cs h => by simp [sv1Comps] at h⟩
+    | [_, _] => exact ⟨fun a ha => by simp [sv1Comps] at ha; exact Or.inl ha, fun cs h => by simp [sv1Comps] at h⟩
+
+/-- what parseSOF3 does to the decoder state and what it allocates -/
+theorem sv1SOF3_spec (st : Sv1) (data : Bytes) :
+    let r := sv1SOF3 st data
+    r.1.2.allocs = st.allocs ∧
+    (∀ a ∈ r.2, a ≤ 24 ∨ a ≤ 8 * (r.1.2.width * r.1.2.height)) ∧
+    (st.comps ≠ [] → r.1.2 = st ∧ r.2 = [] ∧ r.1.1 = false) ∧
+    (r.1.1 = true → 1 ≤ r.1.2.comps.length ∧ r.1.2.comps.length ≤ 3 ∧ r.1.2.precision ≤ 16) := by
+  simp only
+  unfold sv1SOF3
+  by_cases h1 : data.length < 6
+  · rw [if_pos h1]; simp
+  rw [if_neg h1]
+  by_cases h2 : st.comps.length > 0
+  · rw [if_pos h2]; simp
+  rw [if_neg h2]
+  have hc : st.comps = [] := by
+    cases hcs : st.comps with
+    | nil => rfl
+    | cons a b => rw [hcs] at h2; simp at h2
+  simp only
+  by_cases h3 : data.getD 0 0 < 2 ∨ data.getD 0 0 > 16
+  · rw [if_pos h3]; simp [hc]
+  rw [if_neg h3]
+  by_cases h4 : data.getD 3 0 * 256 + data.getD 4 0 = 0 ∨ data.getD 1 0 * 256 + data.getD 2 0 = 0
+  · rw [if_pos h4]; simp [hc]
+  rw [if_neg h4]
+  by_cases h5 : data.getD 5 0 ≠ 1 ∧ data.getD 5 0 ≠ 3
+  · rw [if_pos h5]; simp [hc]
+  rw [if_neg h5]
+  by_cases h6 : data.length < 6 + data.getD 5 0 * 3
+  · rw [if_pos h6]; simp [hc]
+  rw [if_neg h6]
+  have hs := sv1Comps_spec (data.getD 3 0 * 256 + data.getD 4 0) (data.getD 1 0 * 256 + data.getD 2 0)
+    (data.getD 5 0) (data.drop 6) [] [8 * data.getD 5 0]
+  cases hr : sv1Comps (data.getD 3 0 * 256 + data.getD 4 0) (data.getD 1 0 * 256 + data.getD 2 0)
+      (data.getD 5 0) (data.drop 6) [] [8 * data.getD 5 0] with
+  | mk o al =>
+    rw [hr] at hs
+    have hal : ∀ a ∈ al, a ≤ 24 ∨ a ≤ 8 * ((data.getD 3 0 * 256 + data.getD 4 0) * (data.getD 1 0 * 256 + data.getD 2 0)) := by
+      intro a ha
+      rcases hs.1 a ha with h | h
+      · have := List.mem_singleton.mp h; left; omega
+      · right; omega
+    cases o with
+    | none => simp only; exact ⟨by first | rfl | trivial, hal, by simp [hc], by simp⟩
+    | some cs =>
+      simp only
+      have hl := hs.2 cs rfl
+      simp only [List.length_nil, Nat.zero_add] at hl
+      exact ⟨by first | rfl | trivial, hal, by simp [hc], by intro _; omega⟩
+
+theorem sv1Selectors_len (n : Nat) (data : Bytes) (comps cs : List (Nat × Nat))
+    (h : sv1Selectors n data comps = some cs) : cs.length = comps.length := by
+  induction n generalizing data comps with
+  | zero => simp [sv1Selectors] at h; subst h; rfl
+  | succ n ih =>
+    match data with
+    | c :: td :: rest =>
+      unfold sv1Selectors at h
+      split at h
+      · cases h
+      · split at h
+        · cases h
+        · have := ih rest _ h; simpa using this
+    | [] => simp [sv1Selectors] at h
+    | [_] => simp [sv1Selectors] at h
+
+theorem sv1SOS_fields {st st' : Sv1} {data : Bytes} (h : sv1SOS st data = some st') :
+    st'.width = st.width ∧ st'.height = st.height ∧ st'.precision = st.precision ∧
+    st'.comps.length = st.comps.length ∧ st'.allocs = st.allocs := by
+  unfold sv1SOS at h
+  split at h
+  · cases h
+  · split at h
+    · cases h
+    · split at h
+      · cases h
+      · rename_i cs hs
+        split at h
+        · cases h
+        · injection h with h; subst h
+          exact ⟨rfl, rfl, rfl, sv1Selectors_len _ _ _ _ hs, rfl⟩
+
+def Sv1Good (N : Nat) (st : Sv1) (bs : Bytes) : Prop :=
+  IsBytes bs ∧ bs.length ≤ N ∧ st.comps.length ≤ 3 ∧ st.precision ≤ 16 ∧
+  (st.comps = [] → ∀ a ∈ st.allocs, Small N a) ∧
+  (∀ a ∈ st.allocs, Small N a ∨ a ≤ 8 * (st.width * st.height))
+
+def Sv1Final (N : Nat) (p : Sv1 × Res) : Prop :=
+  ∀ a ∈ p.1.allocs, Small N a ∨ a ≤ 8 * (p.1.width * p.1.height)
+
+theorem or_append {N : Nat} {B : Nat} {l xs : List Nat} (hl : ∀ a ∈ l, Small N a ∨ a ≤ B) (hx : ∀ a ∈ xs, Small N a ∨ a ≤ B) :
+    ∀ a ∈ l ++ xs, Small N a ∨ a ≤ B := by
+  intro a ha
+  rcases List.mem_append.mp ha with h | h
+  · exact hl a h
+  · exact hx a h
+
+theorem outBytes_le (w h c p : Nat) (hc : c ≤ 3) (hp : p ≤ 16) : w * h * c * ((p + 7) / 8) ≤ 8 * (w * h) := by
+  have h16 : (p + 7) / 8 ≤ 2 := by omega
+  calc w * h * c * ((p + 7) / 8) ≤ w * h * 3 * 2 := Nat.mul_le_mul (Nat.mul_le_mul_left _ hc) h16
+    _ ≤ 8 * (w * h) := by omega
+
+theorem sv1Step_more_good {N : Nat} {st st' : Sv1} {bs r : Bytes} (hg : Sv1Good N st bs)
+    (h : sv1Step st bs = .more st' r) : Sv1Good N st' r := by
+  obtain ⟨hb, hl, hc, hp, h0, ha⟩ := hg
+  unfold sv1Step at h
+  split at h
+  · cases h
+  · rename_i m rest hm
+    have hrb := readMarker_isBytes hb hm
+    have hrl := readMarker_progress hm
+    try simp only at h
+    split at h
+    · obtain ⟨pl, hr, hh⟩ := segTurn_more' h
+      have hpl := readSegment_progress hr
+      have hspec := sv1SOF3_spec st pl
+      try simp only at hh hspec
+      split at hh
+      · cases hh
+      · rename_i st2 al hs
+        rw [hs] at hspec
+        simp only at hspec
+        obtain ⟨_, hal, hne, htrue⟩ := hspec
+        have ht := htrue (by first | rfl | trivial)
+        have hcs : st.comps = [] := by
+          cases hcc : st.comps with
+          | nil => rfl
+          | cons a b => have := (hne (by rw [hcc]; simp)).2.2; cases this
+        injection hh with hh; subst hh
+        refine ⟨readSegment_isBytes hrb hr, by omega, ht.2.1, ht.2.2, ?_, ?_⟩
+        · intro he
+          exfalso
+          have : st2.comps.length = 0 := by simp at he; rw [he]; rfl
+          omega
+        · intro a h'
+          simp only at h'
+          rcases List.mem_append.mp h' with h' | h'
+          · left
+            exact mem_append_small (h0 hcs) (small_list _ (by intro x hx; simp at hx; omega)) a h'
+          · rcases hal a h' with h2 | h2
+            · left; right; omega
+            · right; exact h2
+    · have keep : ∀ (xs : List Nat), (∀ x ∈ xs, x ≤ N) → ∀ (st1 : Sv1), st1.width = st.width → st1.height = st.height →
+          st1.comps = st.comps → st1.precision = st.precision → st1.allocs = st.allocs ++ xs → ∀ r', IsBytes r' → r'.length ≤ N →
+          Sv1Good N st1 r' := by
+        intro xs hxs st1 e1 e2 e3 e4 e5 r' hr1 hr2
+        refine ⟨hr1, hr2, by rw [e3]; exact hc, by rw [e4]; exact hp, ?_, ?_⟩
+        · intro he; rw [e3] at he; rw [e5]
+          exact mem_append_small (h0 he) (small_list _ hxs)
+        · rw [e5, e1, e2]
+          exact or_append ha (fun a h' => Or.inl (small_list _ hxs a h'))
+      split at h
+      · obtain ⟨pl, hr, hh⟩ := segTurn_more' h
+        have hpl := readSegment_progress hr
+        try simp only at hh
+        split at hh
+        · injection hh with hh; subst hh
+          apply keep [pl.length, pl.length] (by intro x hx; simp at hx; omega) <;>
+            first | rfl | exact readSegment_isBytes hrb hr | omega
+        · cases hh
+      · split at h
+        · obtain ⟨pl, hr, hh⟩ := segTurn_more' h
+          try simp only at hh
+          repeat' split at hh
+          all_goals cases hh
+        · split at h
+          · cases h
+          · split at h
+            · obtain ⟨pl, hr, hh⟩ := segTurn_more' h
+              have hpl := readSegment_progress hr
+              try simp only at hh
+              injection hh with hh; subst hh
+              apply keep [pl.length] (by intro x hx; simp at hx; omega) <;>
+                first | rfl | exact readSegment_isBytes hrb hr | omega
+            · injection h with h1 h2; subst h1; subst h2
+              exact ⟨hrb, by omega, hc, hp, h0, ha⟩
+
+theorem sv1Step_done_final {N : Nat} {st st' : Sv1} {bs : Bytes} {o : Res} (hg : Sv1Good N st bs)
+    (h : sv1Step st bs = .done st' o) : Sv1Final N (st', o) := by
+  obtain ⟨hb, hl, hc, hp, h0, ha⟩ := hg
+  unfold sv1Step at h
+  split at h
+  · injection h with h1 h2; subst h1; exact ha
+  · rename_i m rest hm
+    have hrb := readMarker_isBytes hb hm
+    have hrl := readMarker_progress hm
+    have hfail : Sv1Final N ({ st with allocs := st.allocs ++ [readSegmentAlloc rest] }, Res.err) :=
+      or_append ha (by intro a h'; simp at h'; subst h'; left; right; exact readSegmentAlloc_le hrb)
+    try simp only at h
+    split at h
+    · rcases segTurn_done' h with ⟨h1, _⟩ | ⟨pl, rest2, hr, hh⟩
+      · subst h1; exact hfail
+      · have hpl := readSegment_progress hr
+        have hspec := sv1SOF3_spec st pl
+        try simp only at hh hspec
+        split at hh
+        · rename_i st2 al hs
+          rw [hs] at hspec
+          simp only at hspec
+          obtain ⟨_, hal, hne, _⟩ := hspec
+          injection hh with h1 _; subst h1
+          intro a h'
+          simp only at h'
+          by_cases hcs : st.comps = []
+          · rcases List.mem_append.mp h' with h' | h'
+            · left
+              exact mem_append_small (h0 hcs) (small_list _ (by intro x hx; simp at hx; omega)) a h'
+            · rcases hal a h' with h2 | h2
+              · left; right; omega
+              · right; exact h2
+          · obtain ⟨e1, e2, _⟩ := hne hcs
+            rw [e1]
+            rw [e2] at h'
+            simp only [List.append_nil] at h'
+            exact or_append ha (fun a h'' => Or.inl (small_list _ (by intro x hx; simp at hx; omega) a h'')) a h'
+        · cases hh
+    · split at h
+      · rcases segTurn_done' h with ⟨h1, _⟩ | ⟨pl, rest2, hr, hh⟩
+        · subst h1; exact hfail
+        · have hpl := readSegment_progress hr
+          try simp only at hh
+          split at hh
+          · cases hh
+          · injection hh with h1 _; subst h1
+            exact or_append ha (fun a h'' => Or.inl (small_list _ (by intro x hx; simp at hx; omega) a h''))
+      · split at h
+        · rcases segTurn_done' h with ⟨h1, _⟩ | ⟨pl, rest2, hr, hh⟩
+          · subst h1; exact hfail
+          · have hpl := readSegment_progress hr
+            try simp only at hh
+            split at hh
+            · injection hh with h1 _; subst h1
+              exact or_append ha (fun a h'' => Or.inl (small_list _ (by intro x hx; simp at hx; omega) a h''))
+            · rename_i st2 hs
+              have hf := sv1SOS_fields hs
+              have hbase : ∀ a ∈ st.allocs ++ [pl.length, rest2.length], Small N a ∨ a ≤ 8 * (st2.width * st2.height) := by
+                rw [hf.1, hf.2.1]
+                exact or_append ha (fun a h'' => Or.inl (small_list _ (by intro x hx; simp at hx; omega) a h''))
+              split at hh
+              · injection hh with h1 _; subst h1
+                intro a h'
+                simp only at h'
+                rcases List.mem_append.mp h' with h' | h'
+                · exact hbase a h'
+                · simp at h'; subst h'
+                  right
+                  unfold Sv1.outBytes
+                  exact outBytes_le _ _ _ _ (by rw [hf.2.2.2.1]; exact hc) (by rw [hf.2.2.1]; exact hp)
+              · injection hh with h1 _; subst h1
+                exact hbase
+        · split at h
+          · injection h with h1 _; subst h1
+            intro a h'
+            simp only at h'
+            rcases List.mem_append.mp h' with h' | h'
+            · exact ha a h'
+            · simp at h'; subst h'
+              right
+              unfold Sv1.outBytes
+              exact outBytes_le _ _ _ _ hc hp
+          · split at h
+            · rcases segTurn_done' h with ⟨h1, _⟩ | ⟨pl, rest2, hr, hh⟩
+              · subst h1; exact hfail
+              · cases hh
+            · cases h
+
+/-- C09, lossless14sv1 (with the second-SOF rejection): every allocation up to the first Huffman
+    symbol is at most len(input), or 65533, or 8·w·h of the decoder's frame header -/
+theorem sv1Decode_allocs (bs : Bytes) (hb : IsBytes bs) :
+    ∀ a ∈ (sv1Decode bs).1.allocs, a ≤ bs.length ∨ a ≤ 65533 ∨
+      a ≤ 8 * ((sv1Decode bs).1.width * (sv1Decode bs).1.height) := by
+  unfold sv1Decode
+  split
+  · simp
+  · rename_i m rest hm
+    split
+    · simp
+    · have hl := readMarker_progress hm
+      have h := run_inv sv1Step sv1Step_lt (Sv1Good bs.length) (Sv1Final bs.length)
+        (fun st b st' r hi hs => sv1Step_more_good hi hs)
+        (fun st b st' o hi hs => sv1Step_done_final hi hs)
+        {} rest ⟨readMarker_isBytes hb hm, by omega, by decide, by decide, (fun _ a h => by cases h), (fun a h => by cases h)⟩
+      intro a ha
+      rcases h a ha with (h1 | h1) | h1
+      · exact Or.inl h1
+      · exact Or.inr (Or.inl h1)
+      · exact Or.inr (Or.inr h1)
+end JM
+
+namespace JM
+open PC
+
+/-! ## baseline (after FIXME-SOF) -/
+
+theorem divCeil_comp_le (w H M cw : Nat) (hH : H ≤ M) (hM : 1 ≤ M) (hw : 1 ≤ w)
+    (h : divCeil (w * H) (M * 8) = some cw) : cw ≤ w := by
+  unfold divCeil at h
+  have hd : ¬ M * 8 = 0 := by omega
+  rw [if_neg hd] at h
+  injection h with h
+  have h1 : cw * (M * 8) ≤ w * H + M * 8 - 1 := by rw [← h]; exact Nat.div_mul_le_self _ _
+  have h2 : w * H ≤ w * M := Nat.mul_le_mul_left _ hH
+  by_cases hcon : 8 * cw ≤ w + 7
+  · omega
+  · exfalso
+    have h3 : (w + 8) * M ≤ (8 * cw) * M := Nat.mul_le_mul_right _ (by omega)
+    have h4 : (8 * cw) * M = cw * (M * 8) := by
+      rw [Nat.mul_comm 8 cw, Nat.mul_assoc, Nat.mul_comm 8 M]
+    have h5 : (w + 8) * M = w * M + 8 * M := Nat.add_mul _ _ _
+    omega
+
+theorem le_foldl_max (f : BlComp → Nat) (cs : List BlComp) (init : Nat) (c : BlComp) (hc : c ∈ cs) :
+    f c ≤ cs.foldl (fun m c => max m (f c)) init := by
+  induction cs generalizing init with
+  | nil => cases hc
+  | cons x xs ih =>
+    simp only [List.foldl_cons]
+    rcases List.mem_cons.mp hc with h | h
+    · subst h
+      have := foldl_max_ge f xs (max init (f c))
+      omega
+    · exact ih _ h
+
+theorem blCompAllocs_bound (w h maxH maxV : Nat) (hH : 1 ≤ maxH) (hV : 1 ≤ maxV) (hw : 1 ≤ w) (hh : 1 ≤ h)
+    (cs : List BlComp) (hcs : ∀ c ∈ cs, c.h ≤ maxH ∧ c.v ≤ maxV) (al : List Nat)
+    (ha : blCompAllocs w h maxH maxV cs = .ok al) : ∀ a ∈ al, a ≤ 64 * (w * h) := by
+  induction cs generalizing al with
+  | nil => simp [blCompAllocs] at ha; subst ha; intro a h'; cases h'
+  | cons c cs ih =>
+    unfold blCompAllocs at ha
+    split at ha
+    · cases ha
+    · rename_i cw hcw
+      split at ha
+      · cases ha
+      · rename_i ch hch
+        split at ha
+        · rename_i al' hal
+          injection ha with ha; subst ha
+          have hc := hcs c (by simp)
+          have h1 := divCeil_comp_le w c.h maxH cw hc.1 hH hw hcw
+          have h2 := divCeil_comp_le h c.v maxV ch hc.2 hV hh hch
+          intro a h'
+          rcases List.mem_cons.mp h' with h' | h'
+          · subst h'
+            have : cw * ch ≤ w * h := Nat.mul_le_mul h1 h2
+            omega
+          · exact ih (fun c' hc' => hcs c' (List.mem_cons_of_mem _ hc')) al' hal a h'
+        · cases ha
+
+theorem blComps_len (n : Nat) (data : Bytes) (acc cs : List BlComp) (h : blComps n data acc = some cs) :
+    cs.length = acc.length + n := by
+  induction n generalizing data acc with
+  | zero => simp [blComps] at h; subst h; rfl
+  | succ n ih =>
+    match data with
+    | id :: hv :: tq :: rest =>
+      unfold blComps at h
+      simp only at h
+      split at h
+      · cases h
+      · have := ih rest _ h; simp at this; omega
+    | [] => simp [blComps] at h
+    | [_] => simp [blComps] at h
+    | [_, _] => simp [blComps] at h
+
+/-- what an accepted baseline frame header does -/
+theorem blSOF_spec {st st' : Bl} {data : Bytes} {al : List Nat} (h : blSOF st data = .ok (st', al)) :
+    st.comps = [] ∧ st'.comps ≠ [] ∧ st'.allocs = st.allocs ∧
+    ∀ a ∈ al, a ≤ 24 ∨ a ≤ 64 * (st'.width * st'.height) := by
+  unfold blSOF at h
+  by_cases h1 : data.length < 6
+  · rw [if_pos h1] at h; cases h
+  rw [if_neg h1] at h
+  by_cases h2 : st.comps.length > 0
+  · rw [if_pos h2] at h; cases h
+  rw [if_neg h2] at h
+  have hc : st.comps = [] := by
+    cases hcs : st.comps with
+    | nil => rfl
+    | cons a b => rw [hcs] at h2; simp at h2
+  by_cases h3 : data.getD 0 0 ≠ 8
+  · rw [if_pos h3] at h; cases h
+  rw [if_neg h3] at h
+  simp only at h
+  by_cases h4 : data.getD 3 0 * 256 + data.getD 4 0 = 0 ∨ data.getD 1 0 * 256 + data.getD 2 0 = 0
+  · rw [if_pos h4] at h; cases h
+  rw [if_neg h4] at h
+  by_cases h5 : data.getD 5 0 ≠ 1 ∧ data.getD 5 0 ≠ 3
+  · rw [if_pos h5] at h; cases h
+  rw [if_neg h5] at h
+  by_cases h6 : data.length < 6 + data.getD 5 0 * 3
+  · rw [if_pos h6] at h; cases h
+  rw [if_neg h6] at h
+  split at h
+  · cases h
+  · rename_i cs hcs
+    have hlen := blComps_len _ _ _ _ hcs
+    simp only [List.length_nil, Nat.zero_add] at hlen
+    split at h
+    · cases h
+    · split at h
+      · cases h
+      · split at h
+        · rename_i al' hal
+          injection h with h; injection h with e1 e2; subst e1; subst e2
+          refine ⟨hc, ?_, rfl, ?_⟩
+          · intro he
+            have : cs.length = 0 := by simp at he; rw [he]; rfl
+            omega
+          · intro a h'
+            rcases List.mem_cons.mp h' with h' | h'
+            · left; omega
+            · right
+              exact blCompAllocs_bound _ _ _ _ (maxOf_pos _ _) (maxOf_pos _ _) (by omega) (by omega) cs
+                (fun c hc' => ⟨le_foldl_max (·.h) cs 1 c hc', le_foldl_max (·.v) cs 1 c hc'⟩) al' hal a h'
+        · cases h
+
+theorem blSelectors_len (n : Nat) (data : Bytes) (comps cs : List BlComp)
+    (h : blSelectors n data comps = some cs) : cs.length = comps.length := by
+  induction n generalizing data comps with
+  | zero => simp [blSelectors] at h; subst h; rfl
+  | succ n ih =>
+    match data with
+    | c :: td :: rest =>
+      unfold blSelectors at h
+      split at h
+      · split at h
+        · cases h
+        · have := ih rest _ h; simpa using this
+      · cases h
+    | [] => simp [blSelectors] at h
+    | [_] => simp [blSelectors] at h
+
+theorem blSOS_fields {st st' : Bl} {data : Bytes} (h : blSOS st data = some st') :
+    st'.width = st.width ∧ st'.height = st.height ∧ st'.allocs = st.allocs ∧ st'.comps.length = st.comps.length := by
+  unfold blSOS at h
+  split at h
+  · cases h
+  · split at h
+    · cases h
+    · split at h
+      · cases h
+      · rename_i cs hs
+        injection h with h; subst h
+        exact ⟨rfl, rfl, rfl, blSelectors_len _ _ _ _ hs⟩
+
+def BlGood (N : Nat) (st : Bl) (bs : Bytes) : Prop :=
+  IsBytes bs ∧ bs.length ≤ N ∧ (st.comps = [] → ∀ a ∈ st.allocs, Small N a) ∧
+  (∀ a ∈ st.allocs, Small N a ∨ a ≤ 64 * (st.width * st.height))
+
+def BlFinal (N : Nat) (p : Bl × Res) : Prop :=
+  ∀ a ∈ p.1.allocs, Small N a ∨ a ≤ 64 * (p.1.width * p.1.height)
+
+theorem blStep_more_good {N : Nat} {st st' : Bl} {bs r : Bytes} (hg : BlGood N st bs)
+    (h : blStep st bs = .more st' r) : BlGood N st' r := by
+  obtain ⟨hb, hl, h0, ha⟩ := hg
+  unfold blStep at h
+  split at h
+  · cases h
+  · rename_i m rest hm
+    have hrb := readMarker_isBytes hb hm
+    have hrl := readMarker_progress hm
+    have keep : ∀ (xs : List Nat), (∀ x ∈ xs, x ≤ N) → ∀ (st1 : Bl), st1.width = st.width → st1.height = st.height →
+        st1.comps = st.comps → st1.allocs = st.allocs ++ xs → ∀ r', IsBytes r' → r'.length ≤ N → BlGood N st1 r' := by
+      intro xs hxs st1 e1 e2 e3 e5 r' hr1 hr2
+      refine ⟨hr1, hr2, ?_, ?_⟩
+      · intro he; rw [e3] at he; rw [e5]
+        exact mem_append_small (h0 he) (small_list _ hxs)
+      · rw [e5, e1, e2]
+        exact or_append ha (fun a h' => Or.inl (small_list _ hxs a h'))
+    try simp only at h
+    split at h
+    · obtain ⟨pl, hr, hh⟩ := segTurn_more' h
+      have hpl := readSegment_progress hr
+      try simp only at hh
+      split at hh
+      · rename_i st2 al hs
+        obtain ⟨hcs, hne, hal0, hal⟩ := blSOF_spec hs
+        injection hh with hh; subst hh
+        refine ⟨readSegment_isBytes hrb hr, by omega, ?_, ?_⟩
+        · intro he; exact absurd he hne
+        · intro a h'
+          simp only at h'
+          rcases List.mem_append.mp h' with h' | h'
+          · left
+            exact mem_append_small (h0 hcs) (small_list _ (by intro x hx; simp at hx; omega)) a h'
+          · rcases hal a h' with h2 | h2
+            · left; right; omega
+            · right; exact h2
+      · cases hh
+    · split at h
+      · obtain ⟨pl, hr, hh⟩ := segTurn_more' h
+        have hpl := readSegment_progress hr
+        try simp only at hh
+        split at hh
+        · injection hh with hh; subst hh
+          apply keep [pl.length] (by intro x hx; simp at hx; omega) <;>
+            first | rfl | exact readSegment_isBytes hrb hr | omega
+        · cases hh
+      · split at h
+        · obtain ⟨pl, hr, hh⟩ := segTurn_more' h
+          have hpl := readSegment_progress hr
+          try simp only at hh
+          split at hh
+          · injection hh with hh; subst hh
+            apply keep [pl.length, pl.length] (by intro x hx; simp at hx; omega) <;>
+              first | rfl | exact readSegment_isBytes hrb hr | omega
+          · cases hh
+        · split at h
+          · obtain ⟨pl, hr, hh⟩ := segTurn_more' h
+            have hpl := readSegment_progress hr
+            try simp only at hh
+            split at hh
+            · cases hh
+            · injection hh with hh; subst hh
+              apply keep [pl.length] (by intro x hx; simp at hx; omega) <;>
+                first | rfl | exact readSegment_isBytes hrb hr | omega
+          · split at h
+            · obtain ⟨pl, hr, hh⟩ := segTurn_more' h
+              try simp only at hh
+              split at hh <;> cases hh
+            · split at h
+              · cases h
+              · split at h
+                · obtain ⟨pl, hr, hh⟩ := segTurn_more' h
+                  have hpl := readSegment_progress hr
+                  try simp only at hh
+                  injection hh with hh; subst hh
+                  apply keep [pl.length] (by intro x hx; simp at hx; omega) <;>
+                    first | rfl | exact readSegment_isBytes hrb hr | omega
+                · injection h with h1 h2; subst h1; subst h2
+                  exact ⟨hrb, by omega, h0, ha⟩
+
+theorem blStep_done_final {N : Nat} {st st' : Bl} {bs : Bytes} {o : Res} (hg : BlGood N st bs)
+    (h : blStep st bs = .done st' o) : BlFinal N (st', o) := by
+  obtain ⟨hb, hl, h0, ha⟩ := hg
+  unfold blStep at h
+  split at h
+  · injection h with h1 h2; subst h1; exact ha
+  · rename_i m rest hm
+    have hrb := readMarker_isBytes hb hm
+    have hrl := readMarker_progress hm
+    have hfail : BlFinal N ({ st with allocs := st.allocs ++ [readSegmentAlloc rest] }, Res.err) :=
+      or_append ha (by intro a h'; simp at h'; subst h'; left; right; exact readSegmentAlloc_le hrb)
+    have same : ∀ (xs : List Nat), (∀ x ∈ xs, x ≤ N) → ∀ (st1 : Bl) (o1 : Res), st1.width = st.width → st1.height = st.height →
+        st1.allocs = st.allocs ++ xs → BlFinal N (st1, o1) := by
+      intro xs hxs st1 o1 e1 e2 e5
+      show ∀ a ∈ st1.allocs, Small N a ∨ a ≤ 64 * (st1.width * st1.height)
+      rw [e5, e1, e2]
+      exact or_append ha (fun a h' => Or.inl (small_list _ hxs a h'))
+    try simp only at h
+    split at h
+    · rcases segTurn_done' h with ⟨h1, _⟩ | ⟨pl, rest2, hr, hh⟩
+      · subst h1; exact hfail
+      · have hpl := readSegment_progress hr
+        try simp only at hh
+        split at hh
+        · cases hh
+        · injection hh with h1 _; subst h1
+          apply same [pl.length] (by intro x hx; simp at hx; omega) <;> rfl
+    · split at h
+      · rcases segTurn_done' h with ⟨h1, _⟩ | ⟨pl, rest2, hr, hh⟩
+        · subst h1; exact hfail
+        · have hpl := readSegment_progress hr
+          try simp only at hh
+          split at hh
+          · cases hh
+          · injection hh with h1 _; subst h1
+            apply same [pl.length] (by intro x hx; simp at hx; omega) <;> rfl
+      · split at h
+        · rcases segTurn_done' h with ⟨h1, _⟩ | ⟨pl, rest2, hr, hh⟩
+          · subst h1; exact hfail
+          · have hpl := readSegment_progress hr
+            try simp only at hh
+            split at hh
+            · cases hh
+            · injection hh with h1 _; subst h1
+              apply same [pl.length, pl.length] (by intro x hx; simp at hx; omega) <;> rfl
+        · split at h
+          · rcases segTurn_done' h with ⟨h1, _⟩ | ⟨pl, rest2, hr, hh⟩
+            · subst h1; exact hfail
+            · have hpl := readSegment_progress hr
+              try simp only at hh
+              split at hh
+              · injection hh with h1 _; subst h1
+                apply same [pl.length] (by intro x hx; simp at hx; omega) <;> rfl
+              · cases hh
+          · split at h
+            · rcases segTurn_done' h with ⟨h1, _⟩ | ⟨pl, rest2, hr, hh⟩
+              · subst h1; exact hfail
+              · have hpl := readSegment_progress hr
+                try simp only at hh
+                split at hh
+                · injection hh with h1 _; subst h1
+                  apply same [pl.length] (by intro x hx; simp at hx; omega) <;> rfl
+                · rename_i st2 hs
+                  have hf := blSOS_fields hs
+                  injection hh with h1 _; subst h1
+                  apply same [pl.length, rest2.length] (by intro x hx; simp at hx; omega)
+                  · exact hf.1
+                  · exact hf.2.1
+                  · rfl
+            · split at h
+              · injection h with h1 _; subst h1; exact ha
+              · split at h
+                · rcases segTurn_done' h with ⟨h1, _⟩ | ⟨pl, rest2, hr, hh⟩
+                  · subst h1; exact hfail
+                  · cases hh
+                · cases h
+
+/-- C09, baseline (with the second-SOF rejection): every allocation up to the first Huffman symbol is
+    at most len(input), or 65533, or 64·w·h of the decoder's frame header (component planes are padded
+    to whole 8×8 blocks of the MCU grid) -/
+theorem blDecode_allocs (bs : Bytes) (hb : IsBytes bs) :
+    ∀ a ∈ (blDecode bs).1.allocs, a ≤ bs.length ∨ a ≤ 65533 ∨
+      a ≤ 64 * ((blDecode bs).1.width * (blDecode bs).1.height) := by
+  unfold blDecode
+  split
+  · simp
+  · rename_i m rest hm
+    split
+    · simp
+    · have hl := readMarker_progress hm
+      have h := run_inv blStep blStep_lt (BlGood bs.length) (BlFinal bs.length)
+        (fun st b st' r hi hs => blStep_more_good hi hs)
+        (fun st b st' o hi hs => blStep_done_final hi hs)
+        {} rest ⟨readMarker_isBytes hb hm, by omega, (fun _ a h => by cases h), (fun a h => by cases h)⟩
+      intro a ha
+      rcases h a ha with (h1 | h1) | h1
+      · exact Or.inl h1
+      · exact Or.inr (Or.inl h1)
+      · exact Or.inr (Or.inr h1)
+end JM
